@@ -6,12 +6,12 @@ From KV Require Import Res.Rename Res.RenameProofs Res.FsFacts.
 Section LayerInd.
   Variable P : layer -> Prop.
   Definition sub_layers_ok (it : item layer) : Prop := match it with ISub l => P l | _ => True end.
-  Hypothesis H : forall ns pfx sfx items, Forall sub_layers_ok items -> P (Layer ns pfx sfx items).
+  Hypothesis H : forall ns pfx sfx touches items, Forall sub_layers_ok items -> P (Layer ns pfx sfx touches items).
 
   Fixpoint layer_ind' (l : layer) : P l :=
     match l with
-    | Layer ns pfx sfx items =>
-        H ns pfx sfx items
+    | Layer ns pfx sfx touches items =>
+        H ns pfx sfx touches items
           ((fix go (its : list (item layer)) : Forall sub_layers_ok its :=
               match its with
               | [] => @Forall_nil (item layer) sub_layers_ok
@@ -41,25 +41,37 @@ Fixpoint items_prov (prov : layer -> list (resource * list rename_step)) (its : 
   | ISub sub :: t => (prov sub ++ items_prov prov t)%list
   end.
 
+(* the patch entries of one kustomization: a selected resource gets the step STouch *)
+Fixpoint touch_prov (sel : list bool) (prov : list (resource * list rename_step))
+  : list (resource * list rename_step) :=
+  match prov, sel with
+  | p :: t, b :: sel' => (fst p, if b then (snd p ++ [STouch])%list else snd p) :: touch_prov sel' t
+  | _, _ => prov
+  end.
+Definition touches_prov (touches : list (list bool)) (prov : list (resource * list rename_step))
+  : list (resource * list rename_step) :=
+  fold_left (fun pv sel => touch_prov sel pv) touches prov.
+
 (* every leaf of a layering with the transformers on its way, in accumulation order *)
 Fixpoint layer_prov (l : layer) : list (resource * list rename_step) :=
   match l with
-  | Layer ns pfx sfx items =>
+  | Layer ns pfx sfx touches items =>
       map (fun p => (fst p, (snd p ++ layer_steps ns pfx sfx)%list))
+        (touches_prov touches
           ((fix go (its : list (item layer)) : list (resource * list rename_step) :=
               match its with
               | [] => []
               | IRes r :: t => (r, []) :: go t
               | IGen r :: t => (r, []) :: go t
               | ISub sub :: t => (layer_prov sub ++ go t)%list
-              end) items)
+              end) items))
   end.
 
-Lemma layer_prov_eq ns pfx sfx items :
-  layer_prov (Layer ns pfx sfx items) =
-  map (fun p => (fst p, (snd p ++ layer_steps ns pfx sfx)%list)) (items_prov layer_prov items).
+Lemma layer_prov_eq ns pfx sfx touches items :
+  layer_prov (Layer ns pfx sfx touches items) =
+  map (fun p => (fst p, (snd p ++ layer_steps ns pfx sfx)%list)) (touches_prov touches (items_prov layer_prov items)).
 Proof.
-  cbn [layer_prov]. f_equal. induction items as [|[r|r|sub] t IH]; cbn [items_prov]; try rewrite IH; reflexivity.
+  cbn [layer_prov]. do 2 f_equal. induction items as [|[r|r|sub] t IH]; cbn [items_prov]; try rewrite IH; reflexivity.
 Qed.
 
 (* ... and the content hash at the top *)
@@ -157,6 +169,24 @@ Section Provenance.
     - eapply lift_step; eauto. apply mapM_Forall2 in H3. exact H3.
   Qed.
 
+  (* the patch entries *)
+  Lemma touch_sel_prov : forall sel prov m,
+    Forall2 came_from prov m -> Forall2 came_from (touch_prov sel prov) (touch_sel cs sel m).
+  Proof.
+    intros sel prov m H. revert sel. induction H as [|p r prov m Hp Hm IH]; intros sel; cbn [touch_prov touch_sel].
+    - destruct sel; constructor.
+    - destruct sel as [|b sel]; [constructor; assumption|]. constructor; [|apply IH].
+      destruct b; unfold came_from in *; cbn [fst snd]; [|exact Hp].
+      eapply steps_snoc; [exact Hp|reflexivity].
+  Qed.
+
+  Lemma touches_prov_ok : forall touches prov m,
+    Forall2 came_from prov m -> Forall2 came_from (touches_prov touches prov) (touch_all cs touches m).
+  Proof.
+    induction touches as [|sel t IH]; intros prov m H; cbn [touches_prov touch_all fold_left]; [exact H|].
+    apply IH. apply touch_sel_prov. exact H.
+  Qed.
+
   Lemma append_one_eq m r m' : append_one cs m r = Ok m' -> m' = (m ++ [r])%list.
   Proof. unfold append_one. destruct (Nat.eqb _ 0); intros H; now inv H. Qed.
 
@@ -182,7 +212,7 @@ Section Provenance.
     accumulate cs prefix_fs suffix_fs namespace_fs prefix_skip suffix_skip l = Ok out ->
     Forall2 came_from (layer_prov l) out.
   Proof.
-    induction l as [ns pfx sfx items IH] using layer_ind'. intros out H.
+    induction l as [ns pfx sfx touches items IH] using layer_ind'. intros out H.
     rewrite layer_prov_eq. cbn [accumulate] in H.
     match type of H with (do m <- ?g items []; _) = _ =>
       assert (Hgo: forall its, Forall (fun it => match it with
@@ -210,9 +240,9 @@ Section Provenance.
           apply Forall2_app; [apply Hit; reflexivity|assumption]. }
     match type of H with (do m <- ?e; _) = _ => destruct e as [m0| | |] eqn:E0 end; cbn [bind] in H; try discriminate.
     destruct (Hgo items IH [] m0 E0) as (new & -> & HF). cbn [app] in *.
-    destruct (namespace_transform cs namespace_fs ns new) as [m1| | |] eqn:E1; cbn [bind] in H; try discriminate.
+    destruct (namespace_transform cs namespace_fs ns (touch_all cs touches new)) as [m1| | |] eqn:E1; cbn [bind] in H; try discriminate.
     destruct (prefix_transform cs prefix_fs prefix_skip pfx m1) as [m2| | |] eqn:E2; cbn [bind] in H; try discriminate.
-    eapply layer_transformers; eauto.
+    eapply layer_transformers; [apply touches_prov_ok; exact HF|eauto..].
   Qed.
 
   Lemma hash_renames_prov prov : forall hs m m',
